@@ -41,6 +41,14 @@ type Clause struct {
 	Owner            *Contract
 }
 
+// SiteSpec: obligations at the n-th call of a named function/builtin inside the contracted function,
+// stated over its local variables (vars) and the call's arguments arg0, arg1, ...
+type SiteSpec struct {
+	Key      string // callee#n
+	Vars     []Param
+	Requires []*Clause
+}
+
 type LoopSpec struct {
 	N          int
 	Vars       []Param
@@ -49,6 +57,9 @@ type LoopSpec struct {
 }
 
 type Contract struct {
+	TimeoutS                        int // per-obligation solver timeout for this function (0 = default)
+	ExitVars                        []Param
+	Sites                           []*SiteSpec
 	Captures                        [][2]string // name, callee#n
 	ReplayAssume                    []*Clause
 	IfaceOf                         *Contract // implementation checked against this interface contract
@@ -75,6 +86,8 @@ type Contract struct {
 }
 
 type ContractSet struct {
+	TypeInvQ     []*Clause
+	Macros       map[string]string
 	Constructors [][2]string          // type name, function (RelString) allowed to store to its stable fields
 	TypeInv      [][3]string          // pkgDir, type ("*T" or "T"), spec function
 	CreateInv    [][3]string          // pkgDir, type name, spec function
@@ -88,7 +101,7 @@ type ContractSet struct {
 	Scan         []string // occurrences of assume/trusted/axiom for the evidence
 }
 
-var clauseRe = regexp.MustCompile(`^(requires|ensures_panic|ensures|assigns|safe|pure|trusted|inline|uninterpreted|overflow-checked|wrap64|nopanic|sweep-callers|ghost|capture|props|replay_assume|replay|observe)\b\s*(.*)$`)
+var clauseRe = regexp.MustCompile(`^(requires|ensures_panic|ensures|assigns|safe|pure|trusted|inline|uninterpreted|overflow-checked|wrap64|nopanic|sweep-callers|ghost|capture|exitvars|timeout|props|replay_assume|replay|observe)\b\s*(.*)$`)
 var labelRe = regexp.MustCompile(`\s+\[([A-Za-z0-9_:.#+\-]+)\]\s*$`)
 
 // parseContractFile reads one contract file.
@@ -101,6 +114,7 @@ func parseContractFile(cs *ContractSet, path, pkgDir string) {
 	cs.Files = append(cs.Files, path)
 	var cur *Contract
 	var lastClause *Clause
+	lastMacro := ""
 	lines := strings.Split(string(data), "\n")
 	pkgName := ""
 	for ln, raw := range lines {
@@ -124,10 +138,13 @@ func parseContractFile(cs *ContractSet, path, pkgDir string) {
 		if strings.HasPrefix(l, "+") { // continuation of the previous clause
 			if lastClause != nil {
 				lastClause.Text += " " + strings.TrimSpace(l[1:])
+			} else if lastMacro != "" {
+				cs.Macros[lastMacro] += " " + strings.TrimSpace(l[1:])
 			}
 			continue
 		}
 		lastClause = nil
+		lastMacro = ""
 		mk := func(kind, text string) *Clause {
 			c := &Clause{Kind: kind, Text: text, File: path, Line: ln + 1, Owner: cur}
 			if m := labelRe.FindStringSubmatchIndex(text); m != nil {
@@ -157,12 +174,31 @@ func parseContractFile(cs *ContractSet, path, pkgDir string) {
 			c.Owner = &Contract{PkgDir: pkgDir, PkgName: pkgName, Func: "axiom", File: path}
 			cs.Axioms = append(cs.Axioms, c)
 			cs.Scan = append(cs.Scan, fmt.Sprintf("axiom %s (%s:%d)", c.Text, filepath.Base(path), ln+1))
+		case strings.HasPrefix(l, "define "):
+			rest := strings.TrimPrefix(l, "define ")
+			if eq := strings.Index(rest, "="); eq > 0 {
+				if cs.Macros == nil {
+					cs.Macros = map[string]string{}
+				}
+				cs.Macros[strings.TrimSpace(rest[:eq])] = strings.TrimSpace(rest[eq+1:])
+				lastMacro = strings.TrimSpace(rest[:eq])
+			}
 		case strings.HasPrefix(l, "constructor-of "):
 			f := strings.Fields(strings.TrimPrefix(l, "constructor-of "))
 			if len(f) >= 2 {
 				for _, fn := range f[1:] {
 					cs.Constructors = append(cs.Constructors, [2]string{f[0], fn})
 				}
+			}
+		case strings.HasPrefix(l, "typeinvq "):
+			// typeinvq <type> <var> <clause> : quantified type invariant (rely), clause over <var>
+			f := strings.Fields(strings.TrimPrefix(l, "typeinvq "))
+			if len(f) >= 3 {
+				c := mk("typeinv", strings.Join(f[2:], " "))
+				c.Owner = &Contract{PkgDir: pkgDir, PkgName: pkgName, Func: "typeinv", File: path}
+				c.ObsName, c.ObsType = f[1], f[0]
+				cs.TypeInvQ = append(cs.TypeInvQ, c)
+				cs.Scan = append(cs.Scan, fmt.Sprintf("rely: every existing %s satisfies %s (%s:%d)", f[0], strings.Join(f[2:], " "), filepath.Base(path), ln+1))
 			}
 		case strings.HasPrefix(l, "typeinv "):
 			f := strings.Fields(strings.TrimPrefix(l, "typeinv "))
@@ -184,6 +220,36 @@ func parseContractFile(cs *ContractSet, path, pkgDir string) {
 				cs.JSPreserved = append(cs.JSPreserved, pkgDir+"|"+f)
 			}
 			cs.Scan = append(cs.Scan, fmt.Sprintf("assumed: script execution preserves %s (%s:%d)", strings.TrimPrefix(l, "jspreserved "), filepath.Base(path), ln+1))
+		case strings.HasPrefix(l, "site "):
+			if cur == nil {
+				cs.Errors = append(cs.Errors, fmt.Sprintf("%s:%d: site clause outside func", path, ln+1))
+				continue
+			}
+			f := strings.Fields(l)
+			if len(f) < 4 {
+				cs.Errors = append(cs.Errors, fmt.Sprintf("%s:%d: bad site clause", path, ln+1))
+				continue
+			}
+			key, kind := f[1], f[2]
+			body := strings.TrimSpace(l[strings.Index(l, kind)+len(kind):])
+			var ss *SiteSpec
+			for _, x := range cur.Sites {
+				if x.Key == key {
+					ss = x
+				}
+			}
+			if ss == nil {
+				ss = &SiteSpec{Key: key}
+				cur.Sites = append(cur.Sites, ss)
+			}
+			switch kind {
+			case "vars":
+				ss.Vars = append(ss.Vars, parseParams(body)...)
+			case "requires":
+				ss.Requires = append(ss.Requires, mk("site", body))
+			default:
+				cs.Errors = append(cs.Errors, fmt.Sprintf("%s:%d: bad site clause kind %s", path, ln+1, kind))
+			}
 		case strings.HasPrefix(l, "loop "):
 			if cur == nil {
 				cs.Errors = append(cs.Errors, fmt.Sprintf("%s:%d: loop clause outside func", path, ln+1))
@@ -249,6 +315,11 @@ func parseContractFile(cs *ContractSet, path, pkgDir string) {
 				}
 				cur.Ghost = append(cur.Ghost, ps[0])
 				cur.Captures = append(cur.Captures, [2]string{ps[0].Name, strings.TrimSpace(m[2][eq+1:])})
+			case "timeout":
+				fmt.Sscanf(m[2], "%d", &cur.TimeoutS)
+			case "exitvars":
+				// local variables an ensures clause may mention (their value at the return)
+				cur.ExitVars = append(cur.ExitVars, parseParams(m[2])...)
 			case "props":
 				cur.Props = append(cur.Props, strings.Fields(m[2])...)
 			case "replay":
@@ -415,10 +486,26 @@ func rewriteImplies(s string) string {
 var oldRe = regexp.MustCompile(`\bold\(`)
 var sameSliceRe = regexp.MustCompile(`\bsameslice\(`)
 var sameRe = regexp.MustCompile(`\bsame\(`)
+var sliceOffRe = regexp.MustCompile(`\bsliceoff\(`)
+var sameArrRe = regexp.MustCompile(`\bsamearray\(`)
 
 // normalizeClause hoists forall binders and rewrites ==> and old().
+var macroRe = regexp.MustCompile(`@([A-Za-z_][A-Za-z0-9_]*)`)
+var curMacros map[string]string
+
 func normalizeClause(c *Clause) error {
 	t := strings.TrimSpace(c.Text)
+	for i := 0; i < 4 && strings.Contains(t, "@"); i++ {
+		t = macroRe.ReplaceAllStringFunc(t, func(m string) string {
+			if v, ok := curMacros[m[1:]]; ok {
+				if strings.HasPrefix(v, "forall ") {
+					return v
+				}
+				return "(" + v + ")"
+			}
+			return m
+		})
+	}
 	for {
 		if strings.HasPrefix(t, "forall ") {
 			i := strings.Index(t, "::")
@@ -450,6 +537,8 @@ func normalizeClause(c *Clause) error {
 	t = oldRe.ReplaceAllString(t, "__vc_old(")
 	t = sameSliceRe.ReplaceAllString(t, "__vc_sameslice(")
 	t = sameRe.ReplaceAllString(t, "__vc_same(")
+	t = sliceOffRe.ReplaceAllString(t, "__vc_sliceoff(")
+	t = sameArrRe.ReplaceAllString(t, "__vc_samearray(")
 	c.Expr = t
 	return nil
 }
@@ -609,6 +698,7 @@ func (c *Contract) resolveSignature(sp *srcPkg) error {
 var identRe = regexp.MustCompile(`\b([A-Za-z_][A-Za-z0-9_]*)\.`)
 
 func (cs *ContractSet) genOverlay(sp *srcPkg, contracts []*Contract, axioms []*Clause) (string, error) {
+	curMacros = cs.Macros
 	var body strings.Builder
 	used := map[string]bool{}
 	n := 0
@@ -644,7 +734,7 @@ func (cs *ContractSet) genOverlay(sp *srcPkg, contracts []*Contract, axioms []*C
 		}
 		base := append([]Param{}, c.Params...)
 		withGhost := append(append([]Param{}, base...), c.Ghost...)
-		withRes := append(append([]Param{}, withGhost...), c.Results...)
+		withRes := append(append(append([]Param{}, withGhost...), c.Results...), c.ExitVars...)
 		do := func(cl *Clause, params []Param) {
 			if err := normalizeClause(cl); err != nil {
 				c.Errors = append(c.Errors, fmt.Sprintf("%s:%d: %v", cl.File, cl.Line, err))
@@ -684,6 +774,12 @@ func (cs *ContractSet) genOverlay(sp *srcPkg, contracts []*Contract, axioms []*C
 		for _, cl := range c.ReplayAssume {
 			do(cl, base)
 		}
+		for _, ss := range c.Sites {
+			ps := append(append([]Param{}, base...), ss.Vars...)
+			for _, cl := range ss.Requires {
+				do(cl, ps)
+			}
+		}
 		for _, cl := range c.Observe {
 			cl.Expr = cl.Text
 			emit(cl, base, cl.ObsType, cl.Text)
@@ -714,6 +810,16 @@ func (cs *ContractSet) genOverlay(sp *srcPkg, contracts []*Contract, axioms []*C
 			}
 		}
 	}
+	for _, cl := range cs.TypeInvQ {
+		if cl.Owner.PkgDir != sp.dir || cl.FnName != "" {
+			continue
+		}
+		if err := normalizeClause(cl); err != nil {
+			cs.Errors = append(cs.Errors, fmt.Sprintf("%s:%d: %v", cl.File, cl.Line, err))
+			continue
+		}
+		emit(cl, append([]Param{{cl.ObsName, cl.ObsType}}, cl.Bound...), "bool", cl.Expr)
+	}
 	for _, cl := range axioms {
 		if err := normalizeClause(cl); err != nil {
 			cs.Errors = append(cs.Errors, fmt.Sprintf("%s:%d: %v", cl.File, cl.Line, err))
@@ -737,6 +843,10 @@ func (cs *ContractSet) genOverlay(sp *srcPkg, contracts []*Contract, axioms []*C
 	}
 	out.WriteString("func __vc_old[T any](x T) T { return x }\n\n")
 	out.WriteString("func __vc_same[T any](a, b T) bool { return any(a) == any(b) }\n\n")
+	out.WriteString("// __vc_sliceoff: index of sub's first element within whole's backing array, relative to whole's first element\n")
+	out.WriteString("func __vc_sliceoff[T any](sub, whole []T) int { return cap(whole) - cap(sub) }\n\n")
+	out.WriteString("// __vc_samearray: the two slices share one backing array (approximated at run time by overlapping capacity ends)\n")
+	out.WriteString("func __vc_samearray[T any](a, b []T) bool { return cap(a) > 0 && cap(b) > 0 && &a[:cap(a)][cap(a)-1] == &b[:cap(b)][cap(b)-1] }\n\n")
 	out.WriteString("func __vc_sameslice[T any](a, b []T) bool { return len(a) == len(b) && cap(a) == cap(b) && (cap(a) == 0 || &a[:1][0] == &b[:1][0]) }\n\n")
 	out.WriteString(body.String())
 	return out.String(), nil
